@@ -268,3 +268,4 @@ def run(ctx) -> None:
     who_may_raise(ctx)
     operand_checks(ctx)
     r_attr(ctx, tenv)
+    shared.argname_scope(ctx, ('forml.io.dsl._struct',), floor=2)
